@@ -130,6 +130,18 @@ def build(c, variant):
             c.assume(eh != 0)
             fs[s].exptset(rsome.E(z) >= el, rsome.E(z) <= eh)
             w.events.append(([s], el, eh))
+    elif variant.get("expt") in ("overlap", "overlap-reversed"):
+        # scenario 1 belongs to two events: every event containing s contributes its beta to scenario s
+        decl = [([0, 1], "A"), ([1], "B")]
+        if variant.get("expt") == "overlap-reversed":
+            decl.reverse()
+        for members, tag in decl:
+            el, eh = c.fresh_real(f"el{tag}_"), c.fresh_real(f"eh{tag}_")
+            c.assume(el < eh)
+            c.assume(el != 0)
+            c.assume(eh != 0)
+            (fs if len(members) == 2 else fs[1]).exptset(rsome.E(z) >= el, rsome.E(z) <= eh)
+            w.events.append((members, el, eh))
     w.pub = None
     if variant.get("prob") == "ub":
         q = _pos(c, "q")
@@ -185,6 +197,9 @@ VARIANTS = {
     "both,E-maxof,expt-all,prob-ub": dict(obj="E-maxof", expt="all", prob="ub", adapt="both"),
     "static,R-objective,econstr,expt-all": dict(obj="R", expt="all", econstr=True),
     "event,E-affine,econstr,expt-per-scenario": dict(obj="E-affine", expt="per-scenario", adapt="event", econstr=True),
+    "static,E-affine,expt-overlap": dict(obj="E-affine", expt="overlap"),
+    "static,E-maxof,expt-overlap-reversed": dict(obj="E-maxof", expt="overlap-reversed"),
+    "event,E-affine,econstr,expt-overlap": dict(obj="E-affine", expt="overlap", adapt="event", econstr=True),
 }
 
 
